@@ -500,7 +500,7 @@ Proof.
   apply find_exact_some in E. destruct E as [_ E]. rewrite a_decl_view in E. congruence.
 Qed.
 
-Lemma uunassign_plan_ok w u o t n vo x : uunassign_plan w u o t n vo = Ok (Some x) ->
+Lemma uunassign_plan_ok w m o t n vo x : uunassign_plan w m o t n vo = Ok (Some x) ->
   uact_ok (w_db w) x /\ uact_flavor x = o_flavor o.
 Proof.
   unfold uunassign_plan. intro H.
@@ -511,7 +511,7 @@ Proof.
     destruct (opt_str_eqb _ v); [|discriminate]. destruct (o_noaction o); [discriminate|]. inversion H. apply G.
   - destruct (o_stack o) as [s|].
     + destruct (o_noaction o); [discriminate|]. inversion H. apply G.
-    + destruct (first_utagged w u _ n t (o_flavor o)) as [[s' v']|].
+    + destruct (first_mutagged m _ n t (o_flavor o)) as [[s' v']|].
       * destruct (o_noaction o); [discriminate|]. inversion H. apply G.
       * destruct (find_tagged _ _ n current (o_flavor o)); discriminate.
 Qed.
